@@ -434,6 +434,32 @@ theorem fold1_argmin_spec (d : Nat × Int) : ∀ xs : List (Nat × Int), xs ≠ 
         · subst h; exact Int.le_refl _
         · have := hall q h; omega
 
+/-! ### fan-in 1 never reduces (why `split_every[i] = 1` must be excluded) -/
+
+theorem partitionAll_one {α} (xs : List α) : partitionAll 1 xs = xs.map (fun x => [x]) := by
+  induction xs with
+  | nil => simp [partitionAll_nil]
+  | cons x r ih =>
+    rw [partitionAll_step (by decide) (by simp)]
+    simp [ih]
+
+theorem partialReduce_one {β} (f : List β → β) (hf : ∀ x, f [x] = x) (bs : List β) :
+    partialReduce 1 f bs = bs := by
+  unfold partialReduce
+  rw [partitionAll_one, List.map_map]
+  have : (f ∘ fun x => [x]) = id := by funext x; exact hf x
+  rw [this, List.map_id]
+
+theorem treeReduce_one {β} (f : List β → β) (hf : ∀ x, f [x] = x) (depth : Nat) (bs : List β) :
+    treeReduce 1 depth f f bs = bs := by
+  unfold treeReduce
+  have h : ∀ r bs, combineRounds 1 f r bs = bs := by
+    intro r
+    induction r with
+    | zero => intro bs; rfl
+    | succ r ih => intro bs; show combineRounds 1 f r (partialReduce 1 f bs) = bs; rw [partialReduce_one f hf, ih]
+  rw [h, partialReduce_one f hf]
+
 /-! ### slices through reductions -/
 
 /-- positional selection of rows. -/
